@@ -134,6 +134,7 @@ def gen_pretext(rng, inp, profile="edit", tagger=None):
                 rows.append(list(PGAP))
             tags = ["Painted"] if painted else []
             p["dest"] = gi
+            p["dest_pos"] = j
             p["painted"] = painted
             p["tags"] = tags
             rows.append(["F", p["name"], p["start"], p["end"], p["strand"], tags])
@@ -342,3 +343,44 @@ def adjacencies(scaffolds):
 
 def all_out_scaffolds(obs):
     return [s for a in obs["asms"] for s in a["scaffolds"]]
+
+
+# ------------------------------------------------------------ coordinate maps
+def scaffold_spans(sc):
+    out = []
+    pos = 0
+    for r in sc["rows"]:
+        n = row_len(r)
+        out.append((pos + 1, pos + n, r))
+        pos += n
+    return out
+
+
+def contig_coord(rs, r, x):
+    """contig coordinate of scaffold position x inside fragment row r starting at rs"""
+    return r[2] + (x - rs) if r[4] == 1 else r[3] - (x - rs)
+
+
+class OutIndex:
+    def __init__(self, obs):
+        self.by_name = {}
+        self.scaffolds = []
+        for a in obs["asms"]:
+            for s_ in a["scaffolds"]:
+                sid = len(self.scaffolds)
+                self.scaffolds.append((a["key"], s_))
+                for st, en, r in scaffold_spans(s_):
+                    if r[0] == "F":
+                        self.by_name.setdefault(r[1], []).append((r, sid, st))
+
+    def locate(self, name, coord):
+        """-> list of (scaffold id, scaffold position, strand) of every output copy of that base"""
+        hits = []
+        for r, sid, st in self.by_name.get(name, []):
+            if r[2] <= coord <= r[3]:
+                p = st + (coord - r[2]) if r[4] == 1 else st + (r[3] - coord)
+                hits.append((sid, p, r[4]))
+        return hits
+
+    def frag_bounds(self, name):
+        return [(r[2], r[3]) for r, _, _ in self.by_name.get(name, [])]
